@@ -76,27 +76,31 @@ def explore_chunk(args):
     viol = []
     per_action = {}
     samples = []
-    for (act0, to0) in chunk:
-        obj, bad = step(None, act0, to0)
+    for (bi, act0, to0) in chunk:
+        # the labels of this constructor's histories are rendered through one of the alphabets (letters, multi-character
+        # names, integers); histories are named by the specification's actions plus the alphabet
+        al = fc.ALPHABETS[bi % len(fc.ALPHABETS)] if OPS is None else None
+        tag = fc.alphabet_tag(al)
+        obj, bad = step(None, fc.tr_act(al, act0), fc.tr_key(al, to0))
         n_steps += 1
         per_action[act0["a"]] = per_action.get(act0["a"], 0) + 1
         if bad:
-            viol.append(([act_str(act0)], bad))
+            viol.append(([tag + act_str(act0)], bad))
             continue
-        fp0 = (to0, fc.fingerprint(obj))
+        fp0 = (to0, tag, fc.fingerprint(obj))
         if fp0 not in visited:
             bad = ops_check(obj, to0)
             if bad:
                 viol.append(([act_str(act0), "ops"], bad))
                 continue
-        frontier = [(to0, obj, (act_str(act0),))]
+        frontier = [(to0, obj, (tag + act_str(act0),))]
         visited.add(fp0)
         for d in range(depth):
             nxt = []
             for (sk, o, hist) in frontier:
                 for (act, tk) in LTS[sk]:
                     o2 = fc.clone(o) if act["a"] != "copy" else o
-                    o2, bad = step(o2, act, tk)
+                    o2, bad = step(o2, fc.tr_act(al, act), fc.tr_key(al, tk))
                     n_steps += 1
                     per_action[act["a"]] = per_action.get(act["a"], 0) + 1
                     h2 = hist + (act_str(act),)
@@ -105,7 +109,7 @@ def explore_chunk(args):
                             viol.append((list(h2), bad))
                         continue
                     n_hist += 1
-                    fp = (tk, fc.fingerprint(o2))
+                    fp = (tk, tag, fc.fingerprint(o2))
                     if fp in visited:
                         continue
                     visited.add(fp)
@@ -150,6 +154,7 @@ def product(run, verts, labels, max_build, depth, build_sample=None, tag="", ops
     if build_sample is not None and len(builds) > build_sample:
         builds = rng.sample(builds, build_sample)
     n = min(core.NCPU, max(1, len(builds)))
+    builds = [(i, a, k) for i, (a, k) in enumerate(builds)]
     chunks = [builds[i::n] for i in range(n)]
     with mp.get_context("fork").Pool(n) as pool:
         outs = pool.map(explore_chunk, [(c, depth, 20) for c in chunks])
